@@ -133,7 +133,10 @@ class Flow:
         if isinstance(s, (ast.Match, ast.AsyncFor, ast.AsyncWith)):
             raise AnalysisError('statement kind %s not modelled (line %d)'
                                 % (type(s).__name__, s.lineno))
-        return self.transfer(s, st)
+        st = self.transfer(s, st)
+        if isinstance(s, ast.Expr) and always_exits([s]):
+            return None         # fatal(), json_fatal(), sys.exit(): no return
+        return st
 
     def loop(self, s, st):
         head = self.copy(st)
